@@ -492,6 +492,14 @@ func runC11(c *Ctx) {
 		}
 	}
 	r.Check(fill, "C11.nonce-layout.lane-filling", c.P.Pos(search.Pos()), "lane i of every batch is given nonce base+i, encoded at trit offset EncodedLen(len(digest))")
+	if fill {
+		idx := "bin<+>(ind<+" + WS + ">(" + PS + "), conv<uint64>(bin<+>(ind<+1>(-1), 1)))"
+		r.Check(fillEveryBatch(c, sb, plainEdges(edgesMatching(sb, "raw:"+hitPat)),
+			"call<*>(slice(load(iaddr(_, bin<+>(ind<+1>(-1), 1))), "+offPat+", none), "+idx+")",
+			"call<*>(load(iaddr(slice(_, 0, none), bin<+>(ind<+1>(-1), 1))), "+idx+")",
+			"call<*>(load(iaddr(_, bin<+>(ind<+1>(-1), 1))), "+idx+")"),
+			"C11.nonce-layout.lane-filling-every-batch", c.P.Pos(search.Pos()), "the nonce base+i is encoded into every lane on every trip of the mining loop: no path from the entry, or from one lane test to the next, reaches the lane test without passing the filling loop")
+	}
 	absorbOK, copyOK, resetOK := false, false, false
 	var absorb, cpy ssa.CallInstruction
 	for _, ci := range ana.Calls(search) {
